@@ -25,6 +25,7 @@ RULE = (
     "simu_commit: Simulations.InElastic on small gmsh meshes under Solve/Save_Iter/Set_Iter op lists; "
     "non-trivial = a saved step with p>0 and a Solve not followed by a save. matpoint: MaterialPoint.Run "
     "mixed control. distinct = sha1 of the serialised case."
+    ' Round 8: simu_commit may save the initial configuration before the first solve; solvers may give the elastic law its Poisson ratio after the behaviours are built.'
 )
 ASSUMPTIONS = [
     "the elastic stiffness C of the 3D elastic law is the trusted input (checked by C11)",
